@@ -324,10 +324,16 @@ def dump_graph(dag, spec):
     for i, n in enumerate(spec['nodes']):
         idx[node_ident(n)] = i
     k = len(spec['nodes'])
-    for nid in sorted(dag.graph.nodes):
-        if nid not in idx:
-            idx[nid] = k
-            k += 1
+
+    def synth_key(nid):
+        # an unnamed switch gets a random id from the builder: order the synthetic nodes by what they are attached to
+        # (kind, consumers with the parameter they feed, sources), not by their id
+        succ = sorted((idx.get(v, 10 ** 6), str(dag.graph.edges[nid, v].get('kwarg_name'))) for v in dag.graph.successors(nid))
+        pred = sorted((idx.get(u, 10 ** 6), str(dag.graph.edges[u, nid].get('case_branch'))) for u in dag.graph.predecessors(nid))
+        return (succ, pred, nid)
+    for nid in sorted((n for n in dag.graph.nodes if n not in idx), key=synth_key):
+        idx[nid] = k
+        k += 1
     nodes = []
     for nid, a in dag.graph.nodes(data=True):
         nodes.append({
@@ -447,8 +453,9 @@ def _gen_spec(rng, profile, n_min, n_max, fail_p, modes, retry_p, falsy_p, cb_p,
                         refs[c] -= 1
                     refs[dec] -= 1
                     continue
+                # half of the switches are unnamed (SwitchCase(..., name=None): the builder invents the node id)
                 nd['marks'].append([pname, {'kind': 'switch', 'decider': dec, 'cases': cases,
-                                            'name': f'sw{sw_count[0]}'}])
+                                            'name': f'sw{sw_count[0]}' if rng.random() < 0.5 else None}])
                 sw_count[0] += 1
                 used_params += 1
             elif r == 'one' and i >= 2:
